@@ -232,6 +232,12 @@ class MethodCtx:
                 s = self.tr.sigs.get((self.cls.name, n.func.attr))
                 if s and s[3]:
                     return True
+            if isinstance(n, ast.Call) and isinstance(n.func, ast.Attribute) and isinstance(n.func.value, ast.Attribute) \
+                    and isinstance(n.func.value.value, ast.Name) and n.func.value.value.id == "self":
+                ft = self.cls.fields.get(n.func.value.attr)
+                s = self.tr.sigs.get((ft, n.func.attr)) if isinstance(ft, str) else None
+                if s and s[3]:
+                    return True
         return False
 
     def initial_env(self):
@@ -531,6 +537,25 @@ class MethodCtx:
             if isinstance(recv, ast.Attribute) and isinstance(recv.value, ast.Name) and recv.value.id == "self":
                 f = recv.attr
                 ft = self.cls.fields.get(f)
+                fc = self.tr.classes.get(ft) if isinstance(ft, str) else None
+                if fc is not None and (fc.name, e.func.attr) in self.tr.sigs:
+                    # a state-changing method of a struct held in a field: the field is replaced by the callee's new state
+                    params, ret, pure, raises, oracles = self.tr.sigs[(fc.name, e.func.attr)]
+                    if pure:
+                        return self.block(rest, env, mode)
+                    if oracles or e.keywords or len(e.args) != len(params):
+                        _u(e, "call on a struct field: arity/keywords/oracles")
+                    args = [self.coerce(*self.expr(a, env, pt), pt, e) for a, (_, pt) in zip(e.args, params)]
+                    env = env.copy()
+                    env.mutated = True
+                    env.narrow = {p: v for p, v in env.narrow.items() if not p.startswith("self.")}
+                    callee = f"({fc.name}_{e.func.attr} ({self.cls.fld(f)} self) {' '.join(args)})".replace(" )", ")")
+                    tmp = self.tr.gensym("fld")
+                    k = f"let self := set_{self.cls.fld(f)} self {tmp} in\n" + self.block(rest, env, mode)
+                    if raises:
+                        self.raises = True
+                        return f"match {callee} with\n| None => None\n| Some ({tmp}, _) =>\n{textwrap.indent(k, '    ')}\nend"
+                    return f"let '({tmp}, _) := {callee} in\n{k}"
                 if isinstance(ft, tuple) and ft[0] == "list":
                     env = env.copy()
                     env.mutated = True
@@ -755,6 +780,11 @@ class MethodCtx:
         c = self.tr.classes.get(t)
         if c is not None and e.attr in c.fields:
             return f"({c.fld(e.attr)} {x})", c.fields[e.attr]
+        if c is not None and (c.name, e.attr) in self.tr.sigs and "property" in [
+                ast.unparse(d) for d in c.defs[e.attr].decorator_list]:
+            params, ret, pure, raises, oracles = self.tr.sigs[(c.name, e.attr)]
+            if pure and not raises and not oracles and not params:
+                return f"({c.name}_{e.attr} {x})", ret
         _u(e, f"attribute {e.attr} of a value of type {t}")
 
     def binop(self, e, env, want=None):
